@@ -1,11 +1,11 @@
 package main
 
 import (
-	"runtime"
 	"bytes"
 	"context"
 	"fmt"
 	"os/exec"
+	"runtime"
 	"strings"
 	"time"
 
